@@ -289,7 +289,7 @@ def _ros_line(rng, word, tier, inplace=None, L=None, stages=None):
     L = rng.randrange(0, 5) if L is None else L
     ncells = rng.randrange(1, (2 * L + 2) if L else 4)
     nspec = rng.randrange(1, 4)
-    stages = rng.choice([1, 2, 2, 3, 3, 4, 6]) if stages is None else stages
+    stages = rng.choice([1, 2, 2, 2, 3, 3, 4, 6]) if stages is None else stages
     newf = [1] + [rng.randrange(2) for _ in range(5)]
     coef = lambda: d(rng.choice([-2, -1, 1, 2]), -2)
     a = [coef() for _ in range(15)]
@@ -299,7 +299,7 @@ def _ros_line(rng, word, tier, inplace=None, L=None, stages=None):
     gamma0 = rng.choice([d(1, -1), d(1, -2), d(1, 0)])
     elo2 = rng.random() < 0.25
     elo = d(2) if elo2 else d(1)
-    max_steps = rng.choice([12, 12, 12, 3, 1, 0])
+    max_steps = rng.choice([5, 4, 4, 3, 2, 1, 0])
     rk = rng.choice([52, 52, 52, 30, 8])
     fmin = rng.choice([d(1, -2), d(1, -3)])
     fmax = rng.choice([d(2), d(4), d(8)])
@@ -315,7 +315,8 @@ def _ros_line(rng, word, tier, inplace=None, L=None, stages=None):
     hmax = d(0) if hmax_e is None else d(1, hmax_e)
     hmin_e = rng.choice([None, None, hmaxp - 10, hmaxp - 4, hmaxp - 2, hmaxp])
     hmin = d(0) if hmin_e is None else d(1, hmin_e)
-    hstart = rng.choice([d(1, hmaxp - 3), d(1, hmaxp - 6), d(1, hmaxp + 1), d(1, hmaxp - 1), d(1, hmaxp), d(1, hmaxp - 3), d(0)])
+    hstart = rng.choice([d(1, hmaxp - 3), d(1, hmaxp - 6), d(1, hmaxp + 1), d(1, hmaxp - 1), d(1, hmaxp), d(1, hmaxp - 3),
+                         d(1, hmaxp - 2), d(1, hmaxp - 1), d(1, hmaxp - 4), d(1, hmaxp), d(0)])
     P = [d(rng.randrange(-2, 3), -2) for _ in range(nspec * nspec)]
     q = [d(rng.randrange(-2, 3), -1) for _ in range(nspec)]
     y0 = [d(rng.randrange(0, 5)) for _ in range(ncells * nspec)]
@@ -430,4 +431,208 @@ def gen_isconv(rng, tier):
                     pad = rng.choice([d(977), d(0), d(-64)])
                     t = [str(L), str(ncells), str(nspec), pad] + atol + [rtol, small] + rs + yn1
                     out.append("isconv " + " ".join(t))
+    return out
+
+
+# ---------------------------------------------------------------------------------------
+# the assembled solver.   slvr / slvb  <scenario> ...
+#   <mech>    := ns {name atol}*  nr { kind a {name param}* b {name param yield}* }*      (atol < 0: no property)
+#   <problem> := ncells table T P dt nsteps rtol h_start clamp y0[ncells*ns] k[ncells*nr]
+#   <config>  := L csc lu reorder order[ns]
+#   cfg   <mech> <problem> w[ns] nconfigs <config>*
+#   cells <mech> <problem(1 cell)> N <config> other_y0[ns] other_k[nr]
+#   reuse <mech> <config> nproblems <problem>*
+# ---------------------------------------------------------------------------------------
+def fnum(x):
+    return repr(float(x))
+
+
+def rand_solver_mech(rng, conservative=True, with_atol=False, max_spec=5):
+    ns = rng.randrange(2, max_spec + 1)
+    names = rng.sample(range(10, 60), ns)
+    w = [rng.choice([1, 1, 2, 4]) for _ in range(ns)] if conservative else [1] * ns
+    atol = [(rng.choice([1e-6, 1e-9, 1e-3, 1e-12]) if (with_atol and rng.random() < 0.6) else -1.0) for _ in range(ns)]
+    nr = rng.randrange(1, 7)
+    rxns = []
+    for _ in range(nr):
+        a = rng.choice([1, 1, 1, 2, 2, 3])
+        reactants = [(rng.randrange(ns), 0) for _ in range(a)]
+        if rng.random() < 0.15:
+            reactants.append((70, 1))    # parameterised third body
+        wr = sum(w[i] for i, p in reactants if not p)
+        b = rng.choice([1, 1, 2, 2, 3])
+        prods = [rng.randrange(ns) for _ in range(b)]
+        if conservative:
+            # yields in quarters; the last product balances the law exactly
+            ys = []
+            left = wr
+            for j, pi in enumerate(prods[:-1]):
+                y = rng.choice([0.25, 0.5, 1.0])
+                if y * w[pi] > left:
+                    y = 0.0
+                ys.append(y)
+                left -= y * w[pi]
+            ys.append(left / w[prods[-1]])
+        else:
+            ys = [rng.choice([0.25, 0.5, 1.0, 1.5, 2.0]) for _ in prods]
+        rxns.append((rng.choice([0, 0, 0, 1]), reactants, list(zip(prods, ys))))
+    return names, atol, w, rxns
+
+
+def solver_mech_tokens(names, atol, rxns):
+    t = [str(len(names))]
+    for n, a in zip(names, atol):
+        t += [str(n), fnum(a)]
+    t.append(str(len(rxns)))
+    for kind, reactants, prods in rxns:
+        t += [str(kind), str(len(reactants))]
+        for i, p in reactants:
+            t += [str(names[i]) if not p else str(i), str(p)]
+        t.append(str(len(prods)))
+        for pi, y in prods:
+            t += [str(names[pi]), "0", fnum(y)]
+    return t
+
+
+def solver_problem_tokens(rng, ns, rxns, ncells, kind, special=False, clamp=1, single_values=None):
+    table = rng.randrange(5)
+    T = rng.choice([300.0, 272.5, 220.0])
+    P = 101325.0
+    dt = rng.choice([1e-2, 0.1, 1.0, 10.0, 100.0])
+    nsteps = rng.choice([1, 1, 2, 3])
+    rtol = rng.choice([1e-6, 1e-4, 1e-8])
+    h_start = 0.0
+    if single_values is not None:
+        y0, k = single_values
+        y0 = y0 * ncells
+        k = k * ncells
+    else:
+        y0 = [rng.choice([0.0, 1.0, 0.5, 1e-3, 2.0, 10.0]) * rng.random() for _ in range(ncells * ns)]
+        k = [10 ** rng.uniform(-3, 1.5) if rx[0] == 0 else 1.0 for _ in range(ncells) for rx in rxns]
+    if special:
+        what = rng.choice(["nan_y", "inf_y", "neg_y", "huge_y", "nan_k", "inf_k", "neg_k", "T0", "huge_k"])
+        i = rng.randrange(len(y0))
+        ud = [jj for jj in range(len(k)) if rxns[jj % len(rxns)][0] == 0]
+        j = rng.choice(ud) if ud else 0
+        if not ud and what.endswith("_k"):
+            what = "nan_y"
+        if what == "nan_y":
+            y0[i] = float("nan")
+        elif what == "inf_y":
+            y0[i] = float("inf")
+        elif what == "neg_y":
+            y0[i] = -abs(y0[i]) - 0.5
+        elif what == "huge_y":
+            y0[i] = 1e300
+        elif what == "nan_k":
+            k[j] = float("nan")
+        elif what == "inf_k":
+            k[j] = float("inf")
+        elif what == "neg_k":
+            k[j] = -5.0
+        elif what == "huge_k":
+            k[j] = 1e300
+        elif what == "T0":
+            T = 0.0
+    t = [str(ncells), str(table), fnum(T), fnum(P), fnum(dt), str(nsteps), fnum(rtol), fnum(h_start), str(clamp)]
+    t += [fnum(v) for v in y0] + [fnum(v) for v in k]
+    return t
+
+
+def rand_config(rng, ns, L=None, identity_order=False):
+    L = rng.choice([0, 2, 3, 4]) if L is None else L
+    order = list(range(ns))
+    if not identity_order:
+        rng.shuffle(order)
+    return [str(L), str(rng.randrange(2)), str(rng.randrange(4)), str(rng.randrange(2))] + list(map(str, order))
+
+
+def gen_slv_cfg(rng, tier, purpose, n_quick, n_thorough):
+    out = []
+    for kk in range(vol(tier, n_quick, n_thorough)):
+        kind = "slvr" if rng.random() < 0.6 else "slvb"
+        names, atol, w, rxns = rand_solver_mech(rng, conservative=(purpose != "c10" or rng.random() < 0.5),
+                                                with_atol=(purpose == "c14"))
+        ns = len(names)
+        ncells = rng.choice([1, 1, 2, 3, 5])
+        clamp = 0 if purpose == "c09" else 1
+        pt = solver_problem_tokens(rng, ns, rxns, ncells, kind, special=(purpose == "c10"), clamp=clamp)
+        if purpose in ("c12", "c14"):
+            ncfg = rng.choice([3, 4, 6])
+        else:
+            ncfg = 1 if purpose == "c10" else 2
+        cfgs = []
+        for _ in range(ncfg):
+            cfgs += rand_config(rng, ns, identity_order=(purpose not in ("c14",) and rng.random() < 0.7))
+        t = [kind, "cfg"] + solver_mech_tokens(names, atol, rxns) + pt + [fnum(x) for x in w] + [str(ncfg)] + cfgs
+        out.append(" ".join(t))
+    return out
+
+
+def gen_slv_cells(rng, tier):
+    out = []
+    for _ in range(vol(tier, 400, 8000)):
+        kind = "slvr" if rng.random() < 0.6 else "slvb"
+        names, atol, w, rxns = rand_solver_mech(rng)
+        ns = len(names)
+        pt = solver_problem_tokens(rng, ns, rxns, 1, kind)
+        cfg = rand_config(rng, ns)
+        L = int(cfg[0])
+        N = rng.choice(list(range(1, (3 * L + 2) if L else 5)))
+        oy = [fnum(rng.random() * 3) for _ in range(ns)]
+        ok = [fnum(10 ** rng.uniform(-3, 1.5)) for _ in rxns]
+        t = [kind, "cells"] + solver_mech_tokens(names, atol, rxns) + pt + [str(N)] + cfg + oy + ok
+        out.append(" ".join(t))
+    return out
+
+
+def gen_slv_reuse(rng, tier):
+    out = []
+    for _ in range(vol(tier, 300, 6000)):
+        kind = "slvr" if rng.random() < 0.6 else "slvb"
+        names, atol, w, rxns = rand_solver_mech(rng)
+        ns = len(names)
+        cfg = rand_config(rng, ns)
+        ncells = rng.choice([1, 2, 3, 5])
+        npb = rng.randrange(2, 7 if tier != "thorough" else 13)
+        t = [kind, "reuse"] + solver_mech_tokens(names, atol, rxns) + cfg + [str(npb)]
+        for i in range(npb):
+            # some problems end in NaN / rejection-heavy runs so that the next one starts from dirty scratch
+            t += solver_problem_tokens(rng, ns, rxns, ncells, kind, special=(rng.random() < 0.25))
+        out.append(" ".join(t))
+    return out
+
+
+def gen_rosmock_special(rng, tier):
+    """scripted-policy Rosenbrock runs whose error norm becomes NaN / Inf: encoded with huge sentinels the
+    drivers map to the special values (m = 0, e = 9999 -> NaN ; m = 1, e = 9999 -> +Inf)"""
+    out = []
+    for _ in range(vol(tier, 150, 3000)):
+        n = rng.randrange(0, 5)
+        w = "".join(rng.choice("AR") for _ in range(n))
+        line = _ros_line(rng, w, tier)
+        t = line.split()
+        # the script is the tail:  nerrs m e m e ...
+        ne = n + 1
+        pos = len(t) - 2 * ne
+        k = rng.randrange(ne)
+        t[pos + 2 * k] = rng.choice(["0", "1"])
+        t[pos + 2 * k + 1] = "9999"
+        out.append(" ".join(t))
+    return out
+
+
+# markowitz n L bits[n*n]
+def gen_markowitz(rng, tier):
+    out = []
+    nmax = 4 if tier == "thorough" else 3
+    for n in range(1, nmax + 1):
+        for mask in range(1 << (n * n)):
+            bits = [(mask >> i) & 1 for i in range(n * n)]
+            out.append("markowitz %d %d %s" % (n, rng.choice([0, 0, 2, 3]), " ".join(map(str, bits))))
+    for _ in range(vol(tier, 200, 5000)):
+        n = rng.randrange(4, 9)
+        dens = rng.choice([0.1, 0.3, 0.6])
+        bits = [1 if (rng.random() < dens or i // n == i % n and rng.random() < 0.8) else 0 for i in range(n * n)]
+        out.append("markowitz %d %d %s" % (n, rng.choice([0, 2, 4]), " ".join(map(str, bits))))
     return out
